@@ -179,6 +179,62 @@ theorem suspend_preserves (s : St) (m r m' r' : Nat) :
     (suspendResume s m r m' r').daUsed = s.daUsed := by
   simp [suspendResume]
 
+/-! ### sequences of authorizations -/
+
+/-- `n` wrong password guesses in a row for a DA-protected entity -/
+def guesses (s : St) : Nat → St
+  | 0 => s
+  | n + 1 => guesses (authorize s .da false).1 n
+
+/-- an authorization of whatever entity with whatever secret never touches the DA parameters themselves -/
+theorem authorize_params_frame (s : St) (e : Ent) (ok : Bool) :
+    (authorize s e ok).1.p.maxTries = s.p.maxTries ∧ (authorize s e ok).1.p.recoveryTime = s.p.recoveryTime ∧
+    (authorize s e ok).1.p.lockoutRecovery = s.p.lockoutRecovery := by
+  cases e <;> cases ok <;> simp only [authorize, checkLockedOut, incrementLockout] <;> (repeat' split) <;> simp_all
+
+/-- **exactly maxTries − failedTries wrong guesses lock the TPM, not one fewer**: from a state that is not locked
+    out, `k` wrong guesses add exactly `k` as long as the limit is not passed -/
+theorem guesses_count (k : Nat) : ∀ (s : St), s.daUsed = true → s.p.recoveryTime ≠ 0 → s.p.maxTries < W32 →
+    s.p.failedTries + k ≤ s.p.maxTries →
+    (guesses s k).p.failedTries = s.p.failedTries + k ∧ (guesses s k).p.maxTries = s.p.maxTries ∧
+    (guesses s k).daUsed = true ∧ (guesses s k).p.recoveryTime = s.p.recoveryTime := by
+  induction k with
+  | zero => intro s hu _ _ _; exact ⟨rfl, rfl, hu, rfl⟩
+  | succ n ih =>
+    intro s hu hr h32 hk
+    have hl : s.p.failedTries < s.p.maxTries := by omega
+    have hc := fail_counts s hl hu hr (by omega)
+    have hf := authorize_params_frame s .da false
+    have hu' : (authorize s .da false).1.daUsed = true := by
+      have h1 : ¬ (s.p.failedTries ≥ s.p.maxTries) := by omega
+      simp [authorize, checkLockedOut, incrementLockout, h1, hu, hr]
+    obtain ⟨i1, i2, i3, i4⟩ := ih (authorize s .da false).1 hu' (by rw [hf.2.1]; exact hr) (by rw [hf.1]; exact h32)
+      (by rw [hc.2.1, hf.1]; omega)
+    simp only [guesses]
+    exact ⟨by rw [i1, hc.2.1]; omega, by rw [i2, hf.1], i3, by rw [i4, hf.2.1]⟩
+
+theorem locks_after_exactly (s : St) (hu : s.daUsed = true) (hr : s.p.recoveryTime ≠ 0) (h32 : s.p.maxTries < W32)
+    (hl : s.p.failedTries ≤ s.p.maxTries) :
+    inLockout (guesses s (s.p.maxTries - s.p.failedTries)) = true ∧
+    (∀ k, k < s.p.maxTries - s.p.failedTries → inLockout (guesses s k) = false) := by
+  refine ⟨?_, ?_⟩
+  · obtain ⟨h1, h2, _, _⟩ := guesses_count (s.p.maxTries - s.p.failedTries) s hu hr h32 (by omega)
+    simp only [inLockout, h1, h2, decide_eq_true_eq]; omega
+  · intro k hk
+    obtain ⟨h1, h2, _, _⟩ := guesses_count k s hu hr h32 (by omega)
+    simp only [inLockout, h1, h2, decide_eq_false_iff_not]; omega
+
+/-- **and once locked, no sequence of password authorizations of DA-protected entities — correct or wrong — gets
+    through or changes anything** -/
+theorem locked_history (oks : List Bool) (s : St) (h : s.p.failedTries ≥ s.p.maxTries) :
+    oks.foldl (fun s ok => (authorize s .da ok).1) s = s ∧ ∀ ok, (authorize s .da ok).2 = RC_LOCKOUT := by
+  refine ⟨?_, fun ok => by rw [lockout_total s ok h]⟩
+  induction oks with
+  | nil => rfl
+  | cons ok rest ih => simp only [List.foldl]; rw [lockout_total s ok h]; exact ih
+
+example : inLockout (guesses ({ daUsed := true } : St) 3) = true ∧ inLockout (guesses ({ daUsed := true } : St) 2) = false := by decide
+
 /-! non-vacuity -/
 example : ∃ s : St, s.p.failedTries ≥ s.p.maxTries := ⟨{ p := { failedTries := 3 } }, by decide⟩
 example : (authorize ({ daUsed := true } : St) .da false).1.p.failedTries = 1 := by decide
